@@ -6,6 +6,7 @@ request sequence (any order, loss, duplication) and every window configuration; 
 parameters may even change from call to call, except in `c34_window*` where the out-of-order
 tolerance is the one fixed configuration value of the history (as in `GroupConfig`).
 -/
+import P2.Extracted.C34
 import P2.Model.Ratchet
 
 namespace P2.C34
@@ -470,5 +471,30 @@ example : (after kdfN (Recv.init 0 : Recv Nat Nat) ([0, 4, 2].map (rq 3))).past
     fixes `ooo`). -/
 example : (run kdfN (Recv.init 0) [rq 1 0, rq 1 3, rq 9 1]).2.map code
     = [.inl 0, .inl 3, .inr .oob] := by decide
+
+/-! ## Tie to the current source text (DESIGN.md §4.2) -/
+
+/-- **The model is the source.** `./check` re-extracts these fragments from /repo on every run
+    (regular expressions anchored on the surrounding statements; a fragment that no longer matches is
+    itself a failure of the proof stage). They are the decision logic of `DecryptionRatchet::secret_for_decryption` and the label roles of `RatchetSecret::ratchet_forward`, as transcribed in `P2.Ratchet.Recv.get` / `Recv.skip` / `Chain.forward`: future check (`g > hd + fwd`, guarded by the u32 headroom test that the model's `Nat` makes vacuous), past check (`g < hd ∧ hd - g > ooo`), branch `g ≥ hd`, `g - hd` skipped generations pushed to the FRONT as `Some`, the used one pushed to the front as `None`, `truncate(ooo)`, window index `hd - g - 1`, missing index → `IndexOutOfBounds`, `take()` (at most once), key material from labels `key`/`nonce`, next secret from `chain`, generation + 1. Any edit of one of these
+    operators / operands / call shapes changes the extracted text and this theorem stops checking —
+    before a single input is generated. -/
+theorem c34_source_ops :
+    P2.Extracted.C34.futureCond = "generation_head < u32::MAX - maximum_forward_distance && generation > generation_head + maximum_forward_distance"
+    ∧ P2.Extracted.C34.pastCond = "generation < generation_head && (generation_head - generation) > ooo_tolerance"
+    ∧ P2.Extracted.C34.branchCond = "generation >= generation_head"
+    ∧ P2.Extracted.C34.loopRange = "0..(generation - generation_head)"
+    ∧ P2.Extracted.C34.skippedPush = "push_front(Some(ratchet_secrets))"
+    ∧ P2.Extracted.C34.usedPush = "push_front(None)"
+    ∧ P2.Extracted.C34.truncateArg = "truncate(ooo_tolerance as usize)"
+    ∧ P2.Extracted.C34.windowIndex = "((generation_head - generation) as i32) - 1"
+    ∧ P2.Extracted.C34.indexCond = "window_index >= 0"
+    ∧ P2.Extracted.C34.lookupErr = "RatchetError::IndexOutOfBounds"
+    ∧ P2.Extracted.C34.takeCall = "take"
+    ∧ P2.Extracted.C34.nonceLabel = "nonce"
+    ∧ P2.Extracted.C34.keyLabel = "key"
+    ∧ P2.Extracted.C34.chainLabel = "chain"
+    ∧ P2.Extracted.C34.generationStep = 1 :=
+  ⟨rfl, rfl, rfl, rfl, rfl, rfl, rfl, rfl, rfl, rfl, rfl, rfl, rfl, rfl, rfl⟩
 
 end P2.C34
